@@ -181,4 +181,224 @@ Proof.
     + apply s1_hget_new. apply Bo. apply owned_cases. auto.
     + destruct (skw_pending (cget s o)); auto. apply s1_hget_new. apply Bo. apply owned_cases. auto.
 Qed.
+
+(* ---- the steps after the deepcopy *)
+Definition live1 (i : nat) : Prop := is_junk (fs s1) i = false.
+
+Record PO (u : cstate) : Prop := mkPO {
+  po_sep : Sep n u;
+  po_fs : fs u = fs s1;
+  po_old : forall i, i < n -> live1 i -> view u i = view s i }.
+
+Record PF (u : cstate) : Prop := mkPF {
+  pf_po : PO u;
+  pf_len : length (co u) = n + n;
+  pf_clone : forall o, S o -> o <> x -> view u (n + o) = view s o;
+  pf_root : fst (view u y) = fst (view s x) }.
+
+Lemma bounded_live u i : PO u -> live1 i -> forall c, In c (owned u i) -> c < length (heap u).
+Proof.
+  intros [[_ B] F _] L c Hc. apply (B i c). apply live_lown; auto. rewrite F. exact L.
+Qed.
+
+Lemma clone_live o : S o -> live1 (n + o).
+Proof.
+  intros So. unfold live1, is_junk, is_k, n. rewrite fs_s1, (kd_t_clone (fs s) x HI Hx o So).
+  destruct (S_lt (fs s) x HI Hx o So) as (_ & K). destruct (kd (fs s) o); auto; congruence.
+Qed.
+
+Lemma old_live i : i < n -> live1 i <-> is_junk (fs s) i = false.
+Proof. intros L. unfold live1. rewrite junk_old by exact L. tauto. Qed.
+
+Lemma x_lt_n : x < n. Proof. apply (x_lt (fs s) x Hx). Qed.
+Lemma x_live1 : live1 x.
+Proof.
+  apply old_live; [apply x_lt_n|]. apply is_junk_kd. apply (x_nonjunk (fs s) x Hx).
+Qed.
+
+Lemma PF_s1 : PF s1.
+Proof.
+  split; [split|..].
+  - apply sep_s1.
+  - reflexivity.
+  - intros i L Li. apply view_s1_old; auto. apply old_live; auto.
+  - unfold s1, deepcopy. simpl. rewrite app_length, map_length, seq_length, Hlen. reflexivity.
+  - intros o So _. apply view_s1_clone. exact So.
+  - unfold y. rewrite view_s1_clone; auto. apply (S_x (fs s) x HI).
+Qed.
+
+Lemma PO_touch u k : live1 k -> PO u -> PO (touch_style u k).
+Proof.
+  intros Lk HP. split.
+  - apply Sep_touch. apply HP.
+  - rewrite fs_touch. apply HP.
+  - intros i L Li. rewrite view_touch; [apply HP; auto | |]; apply bounded_live; auto.
+Qed.
+
+Lemma touch_len u k : length (co (touch_style u k)) = length (co u).
+Proof.
+  unfold touch_style. destruct (style_cell (cget u k)), (skw_pending (cget u k)); simpl;
+    rewrite ?lupd_length; reflexivity.
+Qed.
+
+Lemma PF_touch u k : live1 k -> PF u -> PF (touch_style u k).
+Proof.
+  intros Lk [HP Hl Hc Hr]. split.
+  - apply PO_touch; auto.
+  - rewrite touch_len. exact Hl.
+  - intros o So Ho. rewrite view_touch; [apply Hc; auto | |]; apply bounded_live; auto.
+    apply clone_live. exact So.
+  - rewrite view_touch; [exact Hr | |]; apply bounded_live; auto;
+      apply clone_live; apply (S_x (fs s) x HI).
+Qed.
+
+Lemma PO_set_label u l : PO u -> PO (set_label u y l).
+Proof.
+  intros HP. split.
+  - apply Sep_set_label. apply HP.
+  - apply HP.
+  - intros i L Li. rewrite view_set_label; [apply HP; auto | unfold y; lia].
+Qed.
+
+Lemma PF_set_label u l : PF u -> PF (set_label u y l) /\ snd (view (set_label u y l) y) = l.
+Proof.
+  intros [HP Hl Hc Hr].
+  assert (Ly : y < length (co u)) by (rewrite Hl; unfold y; pose proof x_lt_n; lia).
+  split; [split|].
+  - apply PO_set_label. exact HP.
+  - unfold set_label, cupd. simpl. rewrite lupd_length. exact Hl.
+  - intros o So Ho. rewrite view_set_label; [apply Hc; auto | unfold y; lia].
+  - rewrite view_set_label_same by exact Ly. exact Hr.
+  - rewrite view_set_label_same by exact Ly. reflexivity.
+Qed.
+
+Lemma hget_write u c v c' : c' <> c -> hget (write u c v) c' = hget u c'.
+Proof.
+  intros Hne. unfold hget, write. simpl. rewrite nth_lupd.
+  destruct (Nat.eqb_spec c' c); [contradiction | reflexivity].
+Qed.
+
+Lemma PO_apply_kw u k : PO u -> PO (apply_kw u y k).
+Proof.
+  intros HP. pose proof (clone_live x (S_x (fs s) x HI)) as Ly. fold y in Ly.
+  destruct k as [j v|v|l].
+  - split.
+    + apply (Sep_apply_kw n u y (KwAttr j v)). apply HP.
+    + apply HP.
+    + intros i L Li. rewrite <- (po_old u HP i L Li). apply view_stable.
+      * unfold cget. simpl. rewrite cget_lupd.
+        destruct (Nat.eqb_spec i y); [unfold y in *; lia | reflexivity].
+      * intros c Hc. unfold hget. simpl. apply app_nth1. eapply bounded_live; eauto.
+  - simpl. pose proof (PO_touch u y Ly HP) as HP1.
+    destruct (style_cell (cget (touch_style u y) y)) as [c|] eqn:Es; auto.
+    split.
+    + apply Sep_write. apply HP1.
+    + apply HP1.
+    + intros i L Li. rewrite <- (po_old _ HP1 i L Li). apply view_stable; auto.
+      intros c' Hc'. apply hget_write. intros ->.
+      destruct (po_sep _ HP1) as [D _]. apply (D i y c L); [unfold y; lia | |].
+      * apply live_lown; auto. rewrite (po_fs _ HP1). exact Li.
+      * apply live_lown; [rewrite (po_fs _ HP1); exact Ly | apply owned_cases; auto].
+  - simpl. apply PO_set_label. apply PO_touch; auto.
+Qed.
+
+Lemma PO_fold ks : forall u, PO u -> PO (fold_left (fun s k => apply_kw s y k) ks u).
+Proof. induction ks as [|k ks IH]; intros u HP; simpl; auto. apply IH. apply PO_apply_kw. exact HP. Qed.
+
+(* the state after deepcopy + label iteration *)
+Definition s2 : cstate :=
+  match style_cell (cget s x), skw_pending (cget s x) with
+  | None, false => s1
+  | _, _ => set_label (touch_style (touch_style s1 x) y) y (iterate_label (lab (cget s x)))
+  end.
+
+Lemma PF_s2 : PF s2 /\
+  snd (view s2 y) = match style_cell (cget s x), skw_pending (cget s x) with
+                    | None, false => lab (cget s x)
+                    | _, _ => iterate_label (lab (cget s x)) end.
+Proof.
+  pose proof (clone_live x (S_x (fs s) x HI)) as Ly. fold y in Ly.
+  assert (G : forall l, PF (set_label (touch_style (touch_style s1 x) y) y l) /\
+                        snd (view (set_label (touch_style (touch_style s1 x) y) y l) y) = l).
+  { intros l. apply PF_set_label. apply PF_touch; auto. apply PF_touch; [apply x_live1 | apply PF_s1]. }
+  unfold s2. destruct (style_cell (cget s x)), (skw_pending (cget s x)); auto.
+  split; [apply PF_s1|]. unfold y. rewrite view_s1_clone by apply (S_x (fs s) x HI). reflexivity.
+Qed.
+
+Lemma copy_unfold kws : copy s x kws =
+  fold_left (fun s k => apply_kw s y k) (filter is_style_kw kws)
+    (fold_left (fun s k => apply_kw s y k) (filter (fun k => negb (is_style_kw k)) kws) s2).
+Proof. unfold copy, s2, s1, y, n. destruct (style_cell (cget s x)), (skw_pending (cget s x)); reflexivity. Qed.
+
+Lemma PO_copy kws : PO (copy s x kws).
+Proof. rewrite copy_unfold. apply PO_fold. apply PO_fold. apply PF_s2. Qed.
 End CopyThm.
+
+(* ---------------------------------------------------------------- the theorems of C18 *)
+Theorem copy_parentless s x kws : WF s -> live (fs s) x = true ->
+  parent (get (fs (copy s x kws)) (length (fs s) + x)) = None.
+Proof. intros HW Hx. rewrite fs_copy. apply copy_root_parentless; auto. apply HW. Qed.
+
+Theorem copy_subtree_consistent s x kws : WF s -> live (fs s) x = true ->
+  let t := fs (copy s x kws) in let n := length (fs s) in
+  Inv t /\
+  forall o, in_subtree (fs s) x o = true ->
+    kd t (n + o) = kd (fs s) o /\
+    children (get t (n + o)) = shift n (children (get (fs s) o)) /\
+    (o <> x -> parent (get t (n + o)) = option_map (Nat.add n) (parent (get (fs s) o))).
+Proof.
+  intros HW Hx t n. unfold t. rewrite fs_copy. split.
+  - apply copy_inv; auto. apply HW.
+  - intros o So. apply copy_iso; auto. apply HW.
+Qed.
+
+Theorem copy_leaves_original s x kws : WF s -> live (fs s) x = true ->
+  forall i, i < length (fs s) ->
+    get (fs (copy s x kws)) i = get (fs s) i /\
+    (is_junk (fs s) i = false -> view (copy s x kws) i = view s i).
+Proof.
+  intros HW Hx i L. split.
+  - rewrite fs_copy. apply copy_old_untouched. exact L.
+  - intros J. apply (po_old s x (copy s x kws) (PO_copy s x HW Hx kws) i L).
+    apply (old_live s x i L). exact J.
+Qed.
+
+Theorem copy_separated s x kws : WF s -> live (fs s) x = true ->
+  forall i j c, i < length (fs s) -> length (fs s) <= j ->
+    In c (lown (copy s x kws) i) -> ~ In c (lown (copy s x kws) j).
+Proof. intros HW Hx. apply (po_sep s x (copy s x kws) (PO_copy s x HW Hx kws)). Qed.
+
+(* a write into any cell of one side is invisible on the other side *)
+Theorem mutation_frame s x kws : WF s -> live (fs s) x = true ->
+  let s' := copy s x kws in
+  forall i j c v, i < length (fs s) -> length (fs s) <= j ->
+    (In c (lown s' i) -> is_junk (fs s') j = false -> view (write s' c v) j = view s' j) /\
+    (In c (lown s' j) -> is_junk (fs s') i = false -> view (write s' c v) i = view s' i).
+Proof.
+  intros HW Hx s' i j c v Li Lj.
+  pose proof (copy_separated s x kws HW Hx i j) as D. fold s' in D.
+  split; intros Hc J; apply view_stable; auto; intros c' Hc'; apply hget_write; intros ->.
+  - apply (D c Li Lj Hc). apply live_lown; auto.
+  - apply (D c Li Lj); auto. apply live_lown; auto.
+Qed.
+
+(* without keyword overrides every object of the copy reads like its original; only the label
+   of the root is iterated, and only when a style exists or is pending *)
+Theorem copy_equal s x : WF s -> live (fs s) x = true ->
+  let s' := copy s x [] in let n := length (fs s) in
+  forall o, in_subtree (fs s) x o = true ->
+    fst (view s' (n + o)) = fst (view s o) /\
+    snd (view s' (n + o)) =
+      if Nat.eqb o x then
+        match style_cell (cget s x), skw_pending (cget s x) with
+        | None, false => lab (cget s x)
+        | _, _ => iterate_label (lab (cget s x)) end
+      else lab (cget s o).
+Proof.
+  intros HW Hx s' n o So. unfold s'. subst n. rewrite copy_unfold. cbn [filter fold_left].
+  destruct (PF_s2 s x HW Hx) as (HP & Hl).
+  destruct (Nat.eqb_spec o x) as [Eo|No].
+  - subst o. split; [apply (pf_root s x _ HP) | exact Hl].
+  - rewrite (pf_clone s x _ HP o So No). split; reflexivity.
+Qed.
+
